@@ -110,3 +110,163 @@ pub fn guarded<R>(f: impl FnOnce() -> R + panic::UnwindSafe) -> Option<R> {
         }
     }
 }
+
+// ---------------------------------------------------------------- structure-aware mutation helpers
+
+pub struct Rng(pub u64);
+impl Rng {
+    pub fn new(seed: u32) -> Rng {
+        Rng((seed as u64).wrapping_mul(0x9E37_79B9_7F4A_7C15) | 1)
+    }
+    pub fn next(&mut self) -> u64 {
+        // xorshift64*
+        let mut x = self.0;
+        x ^= x >> 12;
+        x ^= x << 25;
+        x ^= x >> 27;
+        self.0 = x;
+        x.wrapping_mul(0x2545_F491_4F6C_DD1D)
+    }
+    pub fn below(&mut self, n: usize) -> usize {
+        if n == 0 {
+            0
+        } else {
+            (self.next() % n as u64) as usize
+        }
+    }
+}
+
+fn number_span(line: &[u8]) -> Option<(usize, usize)> {
+    let mut i = 0;
+    while i < line.len() {
+        let c = line[i];
+        let prev_ok = i == 0 || !(line[i - 1].is_ascii_alphanumeric() || line[i - 1] == b'_');
+        if prev_ok && (c.is_ascii_digit() || ((c == b'-' || c == b'.') && i + 1 < line.len() && line[i + 1].is_ascii_digit())) {
+            let mut j = i + 1;
+            while j < line.len() && (line[j].is_ascii_digit() || line[j] == b'.' || line[j] == b'e' || line[j] == b'E') {
+                j += 1;
+            }
+            return Some((i, j));
+        }
+        i += 1;
+    }
+    None
+}
+
+fn quoted_span(line: &[u8]) -> Option<(usize, usize)> {
+    let a = line.iter().position(|&b| b == b'"')?;
+    let b = line[a + 1..].iter().position(|&b| b == b'"')? + a + 1;
+    if b > a + 1 {
+        Some((a + 1, b))
+    } else {
+        None
+    }
+}
+
+const NUMBERS: [&str; 14] = ["0", "-1", "1", "abc", "1e39", "NaN", "-0.0", "0.001", "90", "180", "360", "13", "1e-30", "99999999"];
+
+/// 1-3 line-level edits of a text (the vocabulary of the fault enumeration, combined and iterated under
+/// coverage guidance): delete / duplicate / swap lines, truncate, replace a number, replace or respell a
+/// quoted name by another one of the text, delete or duplicate a block (.. terminated)
+pub fn mutate_lines(data: &mut [u8], size: usize, max_size: usize, seed: u32) -> Option<usize> {
+    let mut rng = Rng::new(seed);
+    let text = &data[..size];
+    let mut lines: Vec<Vec<u8>> = text.split(|&b| b == b'\n').map(|l| l.to_vec()).collect();
+    if lines.len() < 3 {
+        return None;
+    }
+    let n_edits = 1 + rng.below(3);
+    for _ in 0..n_edits {
+        let n = lines.len();
+        if n < 3 {
+            break;
+        }
+        let i = rng.below(n);
+        match rng.below(10) {
+            0 => {
+                lines.remove(i);
+            }
+            1 => {
+                let l = lines[i].clone();
+                lines.insert(i, l);
+            }
+            2 => {
+                let j = rng.below(n);
+                lines.swap(i, j);
+            }
+            3 => {
+                if rng.below(4) == 0 {
+                    lines.truncate(i + 1);
+                }
+            }
+            4 | 5 => {
+                // a number on this or a following line
+                for k in 0..20 {
+                    let idx = (i + k) % n;
+                    if let Some((a, b)) = number_span(&lines[idx]) {
+                        let rep = NUMBERS[rng.below(NUMBERS.len())].as_bytes();
+                        let mut l = lines[idx][..a].to_vec();
+                        l.extend_from_slice(rep);
+                        l.extend_from_slice(&lines[idx][b..]);
+                        lines[idx] = l;
+                        break;
+                    }
+                }
+            }
+            6 | 7 => {
+                // a quoted name replaced by another quoted name of the text (or respelt)
+                for k in 0..20 {
+                    let idx = (i + k) % n;
+                    if let Some((a, b)) = quoted_span(&lines[idx]) {
+                        let other = (0..30).map(|_| rng.below(n)).find_map(|j| quoted_span(&lines[j]).map(|(c, d)| lines[j][c..d].to_vec()));
+                        let rep: Vec<u8> = match (rng.below(3), other) {
+                            (0, _) | (_, None) => {
+                                let mut v = lines[idx][a..b].to_vec();
+                                v.extend_from_slice(b"_X");
+                                v
+                            }
+                            (_, Some(o)) => o,
+                        };
+                        let mut l = lines[idx][..a].to_vec();
+                        l.extend_from_slice(&rep);
+                        l.extend_from_slice(&lines[idx][b..]);
+                        lines[idx] = l;
+                        break;
+                    }
+                }
+            }
+            _ => {
+                // the block around line i
+                let is_end = |l: &Vec<u8>| {
+                    let t: Vec<u8> = l.iter().copied().filter(|b| !b.is_ascii_whitespace()).collect();
+                    t.ends_with(b"..")
+                };
+                let mut start = i;
+                while start > 0 && !is_end(&lines[start - 1]) {
+                    start -= 1;
+                }
+                let mut end = i;
+                while end < n && !is_end(&lines[end]) {
+                    end += 1;
+                }
+                if end < n && end - start < 200 {
+                    if rng.below(2) == 0 {
+                        lines.drain(start..=end);
+                    } else {
+                        let blk: Vec<Vec<u8>> = lines[start..=end].to_vec();
+                        let at = rng.below(lines.len());
+                        for (k, l) in blk.into_iter().enumerate() {
+                            lines.insert((at + k).min(lines.len()), l);
+                        }
+                    }
+                }
+            }
+        }
+    }
+    let out = lines.join(&b'\n');
+    if out.is_empty() || out.len() > max_size || out.len() > data.len() {
+        return None;
+    }
+    data[..out.len()].copy_from_slice(&out);
+    Some(out.len())
+}
